@@ -70,7 +70,7 @@ def run_sequence(c, wire, compression, limit=10 * 1024 * 1024, cuts=None, fn=Non
 @unit("C15", "violation-cuts-the-connection", [(M, "WebSocketProtocol13._receive_frame"), (M, "WebSocketProtocol13._handle_message"), (M, "WebSocketProtocol._abort"), (M, "WebSocketProtocol13._receive_frame_loop")])
 def u_violation(c):
     from pyvc.standin import wsharness as H
-    before = c.choose("before", ["nothing", "a-complete-message", "a-complete-message-and-an-open-fragment"])
+    before = c.choose("before", ["nothing", "a-complete-message", "a-complete-message-and-an-open-fragment", "a-complete-message-and-an-empty-open-fragment"])
     vname = c.choose("violation", list(VIOLATIONS))
     compressed = c.choose("permessage-deflate", [False, True])
     after = c.choose("followed-by", ["nothing", "a-valid-message"])
@@ -91,7 +91,9 @@ def u_violation(c):
     if before != "nothing":
         wire += data_frame(1, "first message é")
         want.append("first message é")
-    if openfrag:
+    if openfrag and "empty" in before:
+        wire += H.enc_frame(1, b"", fin=False, rsv=4 if compressed else 0, mask=b"abcd")      # a fragmented message may open with an empty frame: it is in progress all the same
+    elif openfrag:
         if compressed:
             z = rd.compress("second, fragmented".encode())
             wire += H.enc_frame(1, z[:4], fin=False, rsv=4, mask=b"abcd")
